@@ -18,7 +18,7 @@ import Barril.Proofs.RegCacheLemmas
 import Barril.Proofs.RegTableLemmas
 import Barril.Proofs.RegIndexLemmas
 import Barril.Gen.ThmReg14ctPosc
-import Barril.Gen.ThmC06Posc
+import Barril.Gen.ThmIdxPosc
 import Barril.Gen.ThmCorePosc
 import Barril.Gen.ThmReg14uSimple
 import Barril.Gen.ThmReg14cSimple
